@@ -213,7 +213,9 @@ def atom_texts(tok):
     import re
 
     t = re.sub(r"\[[$<>][^\]]*\]", "", tok.text)
-    return re.findall(r"\[[^\]]+\]|Cl|Br|[BCNOPSFIcnosp]", t)
+    texts = re.findall(r"\[[^\]]+\]|Cl|Br|[BCNOPSFIcnosp]", t)
+    drop = set(getattr(tok.reading, "merged_h", ()))
+    return [x for i, x in enumerate(texts) if i not in drop]
 
 
 def audit_c06(M, cm, g, inst, block_of, cross, expl, scope_first_may_be_end):
